@@ -96,24 +96,56 @@ def r_fmt_agree(ctx: RuleCtx, col: Collector):
             for x in ast.walk(st):
                 if isinstance(x, ast.Call) and norm(x.func).endswith("b64encode") and x.args and isinstance(x.args[0], ast.Name):
                     data_names.append(x.args[0].id)
-        casts_ok = True
+        # every definition reaching the encoded name casts to the declared type: an assignment, or the element of a
+        # sequence / generator the enclosing loop walks (for i, v in enumerate(blocks) with blocks = (a.astype(..) for ..))
+        from .common import LoopElems
         seen_defs = 0
+
+        def sources(name: str):
+            out = []
+            for x in ast.walk(f.node):
+                if isinstance(x, ast.Assign) and any(isinstance(t, ast.Name) and t.id == name for t in x.targets):
+                    out.append(("value", x.value))
+                elif isinstance(x, ast.For):
+                    le = LoopElems(x.target, x.iter)
+                    if name in le.elems:
+                        out.append(("elem", le.elems[name]))
+                elif isinstance(x, (ast.ListComp, ast.GeneratorExp)):
+                    for g in x.generators:
+                        le = LoopElems(g.target, g.iter)
+                        if name in le.elems:
+                            out.append(("elem", le.elems[name]))
+            return out
+
+        def casts(e: ast.AST, elem: bool, depth: int = 0) -> bool:
+            if depth > 6:
+                return False
+            if elem:
+                # e is a sequence: its elements must be casts
+                if isinstance(e, (ast.ListComp, ast.GeneratorExp)):
+                    return casts(e.elt, False, depth + 1)
+                if isinstance(e, ast.Name):
+                    # a named sequence: every definition of the name is such a sequence (a sequence of sequences is not decided)
+                    src = sources(e.id)
+                    return bool(src) and all(k == "value" and casts(v, True, depth + 1) for k, v in src)
+                return False
+            t = norm(e)
+            if isinstance(e, ast.Call) and (t.endswith(f".astype(np.{want})") or f"dtype=np.{want}" in t):
+                return True
+            if isinstance(e, ast.IfExp):
+                return casts(e.body, False, depth + 1) and casts(e.orelse, False, depth + 1)
+            if isinstance(e, ast.Subscript):
+                return casts(e.value, False, depth + 1)
+            if isinstance(e, ast.Name):
+                src = sources(e.id)
+                return bool(src) and all(casts(v, k == "elem", depth + 1) for k, v in src)
+            return False
+
+        casts_ok = True
         for dn in data_names[:1]:
-            # every definition of the data name within this loop body must cast to the declared type
-            for st in stmts:
-                for x in ast.walk(st):
-                    if isinstance(x, ast.Assign) and any(isinstance(t, ast.Name) and t.id == dn for t in x.targets):
-                        seen_defs += 1
-                        t = norm(x.value)
-                        direct = (f".astype(np.{want})" in t) or (f"dtype=np.{want}" in t)
-                        via = False
-                        if isinstance(x.value, ast.Name):
-                            for d in du.defs.get(x.value.id, []):
-                                td = norm(d)
-                                if f"dtype=np.{want}" in td or f".astype(np.{want})" in td:
-                                    via = True
-                        if not (direct or via):
-                            casts_ok = False
+            src = sources(dn)
+            seen_defs = len(src)
+            casts_ok = bool(src) and all(casts(v, k == "elem") for k, v in src)
         construct = f"DataArray type=\"{vt}\" ({'/'.join(_guards(call, f.node)[:1])})"
         if want is None:
             col.bad(where_of(f), f.rel, line_of(call), construct, f"unknown VTK type {vt}")
@@ -144,7 +176,7 @@ def r_fmt_agree(ctx: RuleCtx, col: Collector):
                     and c.value not in ("<", ">"):
                 codes.add(c.value[-1])
     if header is None or not packs:
-        col.bad(where_of(f), f.rel, line_of(f.node), "header_type vs struct code", "header declaration or struct.pack not found")
+        raise AnalysisError(f"{f.short}: header declaration or struct.pack not found")
     else:
         want = STRUCT_CODES.get(header[1], (None, None))[0]
         if codes == {want}:
@@ -279,6 +311,22 @@ def r_section_agree(ctx: RuleCtx, col: Collector):
         if isinstance(n, ast.If) and isinstance(n.test, ast.Name) and re.search(rf"np\.zeros\(3\*{selfn}\.nnodes", norm(n)):
             pad_flag = n.test.id
     pad_decl = pad_flag is not None and f"3if{pad_flag}else" in t
+    if pad_flag is not None and not pad_decl:
+        # the declared component count held in a local: 3 is assigned to it under the same flag
+        for c_, t_ in ws:
+            if "NumberOfComponents" not in t_ or not isinstance(c_.args[0], ast.Call):
+                continue
+            js = c_.args[0].func.value if isinstance(c_.args[0].func, ast.Attribute) else None
+            if not isinstance(js, ast.JoinedStr):
+                continue
+            for k_, v_ in enumerate(js.values):
+                if isinstance(v_, ast.FormattedValue) and k_ > 0 and isinstance(js.values[k_ - 1], ast.Constant) and \
+                        str(js.values[k_ - 1].value).endswith('NumberOfComponents="') and isinstance(v_.value, ast.Name):
+                    nm = v_.value.id
+                    for n in ast.walk(f.node):
+                        if isinstance(n, ast.If) and isinstance(n.test, ast.Name) and n.test.id == pad_flag and any(
+                                isinstance(x, ast.Assign) and norm(x.targets[0]) == nm and norm(x.value) == "3" for x in n.body):
+                            pad_decl = True
     if pad_alloc and pad_decl:
         col.ok(where_of(f), f.rel, line_of(f.node), "2-D vectors padded to 3 components", "3*nnodes values, 3 components declared")
     else:
@@ -343,12 +391,55 @@ def r_log_lockstep(ctx: RuleCtx, col: Collector):
                 n.targets[0].id != tags:
             dat = n.targets[0].id
             dat0 = len(n.value.elts)
+    paired = False
+    if tags is None or dat is None:
+        # header and row produced together, as (name, value) pairs that are split afterwards: T, D = zip(*pairs)
+        for n in ast.walk(f.node):
+            if isinstance(n, ast.Assign) and isinstance(n.targets[0], ast.Tuple) and len(n.targets[0].elts) == 2 and \
+                    all(isinstance(e, ast.Name) for e in n.targets[0].elts) and isinstance(n.value, ast.Call) and \
+                    norm(n.value.func) == "zip" and len(n.value.args) == 1 and isinstance(n.value.args[0], ast.Starred):
+                tags, dat = [e.id for e in n.targets[0].elts]
+                paired = True
     if tags is None or dat is None:
         raise AnalysisError("ScalarToFile._response: header / row lists not recognised")
-    # header iff first iteration
     from .common import expand_names
-    tt = norm(expand_names(f.node, tags_test))
-    if tt in (f"{selfn}.iter==0", f"0=={selfn}.iter", f"not{selfn}.iter!=0", f"not({selfn}.iter!=0)", f"notnot{selfn}.iter==0"):
+    first_forms = (f"{selfn}.iter==0", f"0=={selfn}.iter", f"not{selfn}.iter!=0", f"not({selfn}.iter!=0)", f"notnot{selfn}.iter==0")
+    if paired:
+        from .common import dominating_tests
+        hw = [nd for nd in cfg.simple_nodes() if nd.kind == STMT and nd.ast is not None and any(
+            isinstance(x, ast.Call) and isinstance(x.func, ast.Attribute) and x.func.attr == "write" and
+            any(isinstance(y, ast.Name) and y.id == tags for a_ in x.args for y in ast.walk(a_)) for x in ast.walk(nd.ast))]
+        if not hw:
+            raise AnalysisError("ScalarToFile._response: header write not recognised")
+        for nd in hw:
+            tests = [norm(expand_names(f.node, t)) for t, pol in dominating_tests(cfg, nd) if pol]
+            if any(t in first_forms for t in tests):
+                col.ok(where_of(f), f.rel, line_of(nd.ast), "header collected iff first iteration", "header written under the first-call test")
+            else:
+                col.bad(where_of(f), f.rel, line_of(nd.ast), "header collected iff first iteration",
+                        f"the header is written under {tests or 'no test'} rather than on the first call only")
+        col.ok(where_of(f), f.rel, line_of(f.node), "header names and row values appended in lockstep",
+               f"{tags} and {dat} are the two halves of one sequence of (name, value) pairs")
+        for w in [n for n in ast.walk(f.node) if isinstance(n, ast.With)]:
+            for item in w.items:
+                c = item.context_expr
+                if isinstance(c, ast.Call) and isinstance(c.func, ast.Name) and c.func.id == "open" and len(c.args) >= 2:
+                    md = c.args[1]
+                    okm = isinstance(md, ast.IfExp) and norm(expand_names(f.node, md.test)) in first_forms and \
+                        isinstance(md.body, ast.Constant) and str(md.body.value).startswith("w") and \
+                        isinstance(md.orelse, ast.Constant) and str(md.orelse.value).startswith("a")
+                    if okm:
+                        col.ok(where_of(f), f.rel, line_of(w), "header written to a truncated file", f"mode {U(md)}")
+                        col.ok(where_of(f), f.rel, line_of(w), "rows appended", f"mode {U(md)}")
+                    elif isinstance(md, ast.Constant):
+                        col.bad(where_of(f), f.rel, line_of(w), "header written to a truncated file / rows appended",
+                                f"one mode '{md.value}' serves the first call (which must truncate) and the later ones (which must append)")
+                    else:
+                        raise AnalysisError(f"ScalarToFile._response: file mode '{U(md)}' not recognised")
+    tt = norm(expand_names(f.node, tags_test)) if not paired else None
+    if paired:
+        pass
+    elif tt in first_forms:
         col.ok(where_of(f), f.rel, line_of(tags_test), "header collected iff first iteration", U(tags_test))
     else:
         col.bad(where_of(f), f.rel, line_of(tags_test), "header collected iff first iteration",
@@ -375,42 +466,43 @@ def r_log_lockstep(ctx: RuleCtx, col: Collector):
         d = d + appends(nd, dat) - appends(nd, tags)
         d = max(-3, min(3, d))
         return [d]
-    at = run_typestate(cfg, [0], step, flag_sensitive=True, ignore_exc=True)
-    bad_exit = set()
-    for st, facts in at[cfg.exit]:
-        fd = dict(facts)
-        if fd.get(f"{tags} is None") is False and st != 0:
-            bad_exit.add(st)
-    # the correlated guard is `tags is not None`; with tags collected the difference must vanish at the exit
-    if not bad_exit:
-        col.ok(where_of(f), f.rel, line_of(f.node), "header names and row values appended in lockstep",
-               f"#{dat} - #{tags} = 0 at every exit where the header is collected")
-    else:
-        col.bad(where_of(f), f.rel, line_of(f.node), "header names and row values appended in lockstep",
-                f"on a path where the header is collected the row has {sorted(bad_exit)} more value(s) than the header has "
-                f"names: columns of the log file do not line up with its header")
-    # file modes: the header write truncates, the row write appends
-    for w in [n for n in ast.walk(f.node) if isinstance(n, ast.With)]:
-        for item in w.items:
-            c = item.context_expr
-            if isinstance(c, ast.Call) and isinstance(c.func, ast.Name) and c.func.id == "open" and len(c.args) >= 2 and \
-                    isinstance(c.args[1], ast.Constant):
-                mode = c.args[1].value
-                writes_header = any(isinstance(x, ast.Name) and x.id == tags for b in w.body for x in ast.walk(b))
-                writes_row = any(isinstance(x, ast.Name) and x.id == dat for b in w.body for x in ast.walk(b))
-                if writes_header:
-                    if mode.startswith("w"):
-                        col.ok(where_of(f), f.rel, line_of(w), "header written to a truncated file", f"mode '{mode}'")
-                    else:
-                        col.bad(where_of(f), f.rel, line_of(w), "header written to a truncated file",
-                                f"the header is written with mode '{mode}': a file left by an earlier run is not truncated, so "
-                                f"the log contains old rows and a second header")
-                if writes_row and not writes_header:
-                    if mode.startswith("a"):
-                        col.ok(where_of(f), f.rel, line_of(w), "rows appended", f"mode '{mode}'")
-                    else:
-                        col.bad(where_of(f), f.rel, line_of(w), "rows appended",
-                                f"rows are written with mode '{mode}': every call overwrites the earlier rows")
+    if not paired:
+        at = run_typestate(cfg, [0], step, flag_sensitive=True, ignore_exc=True)
+        bad_exit = set()
+        for st, facts in at[cfg.exit]:
+            fd = dict(facts)
+            if fd.get(f"{tags} is None") is False and st != 0:
+                bad_exit.add(st)
+        # the correlated guard is `tags is not None`; with tags collected the difference must vanish at the exit
+        if not bad_exit:
+            col.ok(where_of(f), f.rel, line_of(f.node), "header names and row values appended in lockstep",
+                   f"#{dat} - #{tags} = 0 at every exit where the header is collected")
+        else:
+            col.bad(where_of(f), f.rel, line_of(f.node), "header names and row values appended in lockstep",
+                    f"on a path where the header is collected the row has {sorted(bad_exit)} more value(s) than the header has "
+                    f"names: columns of the log file do not line up with its header")
+        # file modes: the header write truncates, the row write appends
+        for w in [n for n in ast.walk(f.node) if isinstance(n, ast.With)]:
+            for item in w.items:
+                c = item.context_expr
+                if isinstance(c, ast.Call) and isinstance(c.func, ast.Name) and c.func.id == "open" and len(c.args) >= 2 and \
+                        isinstance(c.args[1], ast.Constant):
+                    mode = c.args[1].value
+                    writes_header = any(isinstance(x, ast.Name) and x.id == tags for b in w.body for x in ast.walk(b))
+                    writes_row = any(isinstance(x, ast.Name) and x.id == dat for b in w.body for x in ast.walk(b))
+                    if writes_header:
+                        if mode.startswith("w"):
+                            col.ok(where_of(f), f.rel, line_of(w), "header written to a truncated file", f"mode '{mode}'")
+                        else:
+                            col.bad(where_of(f), f.rel, line_of(w), "header written to a truncated file",
+                                    f"the header is written with mode '{mode}': a file left by an earlier run is not truncated, so "
+                                    f"the log contains old rows and a second header")
+                    if writes_row and not writes_header:
+                        if mode.startswith("a"):
+                            col.ok(where_of(f), f.rel, line_of(w), "rows appended", f"mode '{mode}'")
+                        else:
+                            col.bad(where_of(f), f.rel, line_of(w), "rows appended",
+                                    f"rows are written with mode '{mode}': every call overwrites the earlier rows")
     # exactly one row write and one counter increment
     rowwrites = []
     incs = []
